@@ -16,6 +16,20 @@ Fixpoint unhex (s : string) : list N :=
   | _ => []
   end.
 
+(* file contents arrive as a string in which printable ASCII stands for itself and every other byte
+   (and the double quote and the backslash) is written \hh *)
+Fixpoint unesc (s : string) : list N :=
+  match s with
+  | EmptyString => []
+  | String c r =>
+      if N.eqb (N_of_ascii c) 92 then
+        match r with
+        | String a (String b r') => (16 * hexval a + hexval b)%N :: unesc r'
+        | _ => []
+        end
+      else N_of_ascii c :: unesc r
+  end.
+
 (* a position as the runner serialises it: line, column, byte offset *)
 Record rpos := mkP { p_line : N; p_col : N; p_off : N }.
 Definition lc (p : rpos) : nat * nat := (N.to_nat (p_line p), N.to_nat (p_col p)).
@@ -120,3 +134,8 @@ Definition diag_violations files ds := numbered (diag_violation files) ds.
 Definition diag_mismatches files ds := numbered (diag_mismatch files) ds.
 Definition fix_violations files fs := numbered (fix_violation files) fs.
 Definition fix_mismatches files fs := numbered (fix_mismatch files) fs.
+
+(* everything about one file in one evaluation (the file literal is then interpreted only once) *)
+Definition check_file (f : file) (ds : list dcase) (fs : list fcase) :=
+  let files := [f] in
+  (diag_violations files ds, diag_mismatches files ds, fix_violations files fs, fix_mismatches files fs).
